@@ -161,13 +161,13 @@ func (mc *XMCache) newXModelCacheIterator(bucket string, startKey []byte, endKey
 	outputIter := iter
 
 	iter, _ = mc.inputsCache.Select(bucket, startKey, endKey)
-	inputIter := newStripDelIterator(iter)
+	inputIter := newStripDelAndEmptyIterator(iter)
 
 	backendIter, err := mc.model.Select(bucket, startKey, endKey)
 	if err != nil {
 		return nil, err
 	}
-	backendIter = newStripDelIterator(
+	backendIter = newStripDelAndEmptyIterator(
 		newRsetIterator(bucket, backendIter, mc),
 	)
 	// return newContractIterator(backendIter), nil
